@@ -26,6 +26,11 @@ def plan(tier, seed):
     for sch in gen.SCHEMES:
         specs.append({"name": f"rolling-{gen.SHORT[sch]}", "kind": "rolling", "scheme": sch,
                       "rounds": 120 if tier == "quick" else 3000, "budget_s": 60 if tier == "quick" else 400})
+    # object lifetime: index after index of a changing collection on one scheme object, each dropped before the next
+    # is built (props/_search_engine.run_generations): every answer as if it were the only search on that index
+    for j in range(3):
+        specs.append({"name": f"dropped-index-generations-{j}", "kind": "generations", "schemes": gen.SCHEMES[j::3],
+                      "rounds": 1 if tier == "quick" else 8, "generations": 60, "budget_s": 120})
     return specs
 
 
@@ -261,6 +266,12 @@ def run_case(scheme, cid, cfg, cls, db, acc, rng, use_module_default=False):
 
 
 def run_shard(spec, acc, ctx):
+    if spec.get("kind") == "generations":
+        from props import _search_engine as eng
+        eng.run_generations(spec, acc, ctx, "both", sig_prefix="history:")
+        acc.count("cases", acc.counters.get("generations.indexes", 0))
+        acc.count("histories", acc.counters.get("generations.indexes", 0))
+        return
     if spec.get("kind") == "marathon":
         run_marathon(spec, acc, ctx)
         return
